@@ -1,6 +1,6 @@
 (* nsatz instances for Fr (integral domain under PrimeR). *)
 From Coq Require Import ZArith Ring Morphisms Setoid.
-From Coq Require Import Nsatz.
+From Coq Require Import nsatz.NsatzTactic.
 From PlonkV Require Import Base.Fr Base.FrFacts.
 Local Open Scope fr_scope.
 
